@@ -191,6 +191,10 @@ def leaf_values(tree):
     return tree
 
 
+def accept_all(context, from_state, to_state, action, production, subresults):
+    return None if action is None else True
+
+
 def run_unit(u):
     if u["space"] == "sugar":
         return sugar_unit()
@@ -226,6 +230,12 @@ def run_unit(u):
                                ws="")
                     p3 = build("glr", grammar_from_string(text), mon,
                                tag=(gi, 3), actions=acts(), ws="")
+                    # the tree route once more on a parser that carries an
+                    # accept-all dynamic filter (the filter machinery writes
+                    # to the parse contexts the tree nodes are made from)
+                    p2f = build("lr", grammar_from_string(text), mon,
+                                tag=(gi, 4), actions=acts(), build_tree=True,
+                                ws="", dynamic_filter=accept_all)
                 except (Exception, BudgetExceeded) as e:   # noqa: BLE001
                     st["no_parser"] += 1
                     if not isinstance(e, Exception) or \
@@ -259,6 +269,19 @@ def run_unit(u):
                         if r2 != r1:
                             probs.append(("call_actions(tree) != on-the-fly",
                                           str(r2), str(r1)))
+                    o2f = parse(p2f, s, mon)
+                    if o2f.kind != "ok":
+                        probs.append(("tree-building parser with an accept-"
+                                      "all filter fails", o2f.brief()))
+                    else:
+                        try:
+                            r2f = norm(p2f.call_actions(o2f.value))
+                        except Exception as e:     # noqa: BLE001
+                            r2f = ("raised", type(e).__name__, str(e)[:80])
+                        if r2f != r1:
+                            probs.append(("call_actions(tree) with an accept-"
+                                          "all dynamic filter != on-the-fly",
+                                          str(r2f), str(r1)))
                     o3 = parse(p3, s, mon)
                     if o3.kind == "ok" and o2.kind == "ok":
                         fv = ForestView(o3.value.result)
